@@ -3,6 +3,8 @@ package sym
 import (
 	"fmt"
 	"math/big"
+	mbits "math/bits"
+	"strings"
 
 	"golang.org/x/tools/go/ssa"
 )
@@ -25,23 +27,178 @@ func bitsStub(name string) interceptFn {
 		}
 	case "math/bits.Mul64":
 		return func(ex *Exec, a []Value, c *ssa.CallCommon) Value {
+			x, y := a[0].(IntV), a[1].(IntV)
+			if !x.IsBV() && !y.IsBV() && !(x.IsConst() && y.IsConst()) {
+				// Int-encoded operands (Level A): the exact product (linear when one factor is a
+				// constant, otherwise the product abstraction with its exact fallback), split at 2^64
+				p := ex.bigMul(x, y)
+				two64 := new(big.Int).Lsh(bigOneI, 64)
+				var hlo, hhi *big.Int
+				if lo, hi := ex.bounds(p); lo != nil && hi != nil && lo.Sign() >= 0 {
+					hlo, hhi = new(big.Int).Div(lo, two64), new(big.Int).Div(hi, two64)
+				} else {
+					hlo, hhi = big.NewInt(0), bvMask(64)
+				}
+				return TupleV{IntV{T: FDiv(p.T, IntConst(two64)), Lo: hlo, Hi: hhi},
+					IntV{T: FMod(p.T, IntConst(two64)), Lo: big.NewInt(0), Hi: bvMask(64)}}
+			}
 			hi, lo := ex.mul64(bv64(a[0]), bv64(a[1]))
 			return TupleV{bvResult(hi), bvResult(lo)}
 		}
-	case "math/bits.Len", "math/bits.Len64":
-		return func(ex *Exec, a []Value, c *ssa.CallCommon) Value {
-			x := bv64(a[0])
-			if x.IsConst() {
-				return ConstInt(int64(x.Val.BitLen()))
+	}
+	width := func(suffix string) int {
+		switch suffix {
+		case "8":
+			return 8
+		case "16":
+			return 16
+		case "32":
+			return 32
+		}
+		return 64 // "", "64": uint is 64 bits on the verified platform
+	}
+	// bitLen forks on the bit length of an unsigned value (Int- or BV-encoded).
+	bitLen := func(ex *Exec, v IntV, w int) int64 {
+		if v.IsConst() {
+			return int64(new(big.Int).And(v.Const(), bvMask(w)).BitLen())
+		}
+		for n := 0; n < w; n++ {
+			lim := new(big.Int).Lsh(bigOneI, uint(n))
+			var cond *Term
+			if v.IsBV() {
+				cond = BVCmp("bvult", toBV(v, w, false), BVConst(w, lim))
+			} else {
+				if v.Lo != nil && v.Lo.Cmp(lim) >= 0 {
+					continue
+				}
+				if v.Hi != nil && v.Hi.Cmp(lim) < 0 {
+					return int64(n)
+				}
+				cond = Lt(v.T, IntConst(lim))
 			}
-			// fork on the bit length
-			for n := 0; n < 64; n++ {
-				lim := BVConst(64, new(big.Int).Lsh(bigOneI, uint(n)))
-				if ex.decide(BVCmp("bvult", x, lim)) {
-					return ConstInt(int64(n))
+			if ex.decide(cond) {
+				return int64(n)
+			}
+		}
+		return int64(w)
+	}
+	trailingZeros := func(ex *Exec, v IntV, w int) int64 {
+		if v.IsConst() {
+			x := new(big.Int).And(v.Const(), bvMask(w))
+			if x.Sign() == 0 {
+				return int64(w)
+			}
+			return int64(x.TrailingZeroBits())
+		}
+		for n := 0; n < w; n++ {
+			var cond *Term
+			if v.IsBV() {
+				cond = Eq(BVExtract(n, n, toBV(v, w, false)), BVConst(1, bigOneI))
+			} else {
+				cond = Not(Eq(FMod(v.T, IntConst(new(big.Int).Lsh(bigOneI, uint(n+1)))), IntConst64(0)))
+			}
+			if ex.decide(cond) {
+				return int64(n)
+			}
+		}
+		return int64(w)
+	}
+	constOnly := func(f func(x []uint64) []uint64) interceptFn {
+		return func(ex *Exec, a []Value, c *ssa.CallCommon) Value {
+			var xs []uint64
+			for _, v := range a {
+				iv := v.(IntV)
+				if !iv.IsConst() {
+					ex.unsupported("%s on a symbolic value", name)
+				}
+				xs = append(xs, new(big.Int).And(iv.Const(), bvMask(64)).Uint64())
+			}
+			r := f(xs)
+			if len(r) == 1 {
+				return ConstBig(new(big.Int).SetUint64(r[0]))
+			}
+			out := TupleV{}
+			for _, x := range r {
+				out = append(out, ConstBig(new(big.Int).SetUint64(x)))
+			}
+			return out
+		}
+	}
+	short := strings.TrimPrefix(name, "math/bits.")
+	for _, pre := range []string{"Len", "LeadingZeros", "TrailingZeros"} {
+		if !strings.HasPrefix(short, pre) {
+			continue
+		}
+		suffix := strings.TrimPrefix(short, pre)
+		if suffix != "" && suffix != "8" && suffix != "16" && suffix != "32" && suffix != "64" {
+			continue
+		}
+		w, pre := width(suffix), pre
+		return func(ex *Exec, a []Value, c *ssa.CallCommon) Value {
+			v := a[0].(IntV)
+			switch pre {
+			case "Len":
+				return ConstInt(bitLen(ex, v, w))
+			case "LeadingZeros":
+				return ConstInt(int64(w) - bitLen(ex, v, w))
+			}
+			return ConstInt(trailingZeros(ex, v, w))
+		}
+	}
+	switch short {
+	case "OnesCount", "OnesCount64":
+		return constOnly(func(x []uint64) []uint64 { return []uint64{uint64(mbits.OnesCount64(x[0]))} })
+	case "OnesCount32":
+		return constOnly(func(x []uint64) []uint64 { return []uint64{uint64(mbits.OnesCount32(uint32(x[0])))} })
+	case "OnesCount16":
+		return constOnly(func(x []uint64) []uint64 { return []uint64{uint64(mbits.OnesCount16(uint16(x[0])))} })
+	case "OnesCount8":
+		return constOnly(func(x []uint64) []uint64 { return []uint64{uint64(mbits.OnesCount8(uint8(x[0])))} })
+	case "Reverse", "Reverse64":
+		return constOnly(func(x []uint64) []uint64 { return []uint64{mbits.Reverse64(x[0])} })
+	case "Reverse32":
+		return constOnly(func(x []uint64) []uint64 { return []uint64{uint64(mbits.Reverse32(uint32(x[0])))} })
+	case "ReverseBytes", "ReverseBytes64":
+		return constOnly(func(x []uint64) []uint64 { return []uint64{mbits.ReverseBytes64(x[0])} })
+	case "ReverseBytes32":
+		return constOnly(func(x []uint64) []uint64 { return []uint64{uint64(mbits.ReverseBytes32(uint32(x[0])))} })
+	case "RotateLeft", "RotateLeft64":
+		return constOnly(func(x []uint64) []uint64 { return []uint64{mbits.RotateLeft64(x[0], int(int64(x[1])))} })
+	case "RotateLeft32":
+		return constOnly(func(x []uint64) []uint64 { return []uint64{uint64(mbits.RotateLeft32(uint32(x[0]), int(int64(x[1]))))} })
+	case "Add", "Sub", "Mul":
+		return bitsStub("math/bits." + short + "64")
+	case "Add32":
+		return constOnly(func(x []uint64) []uint64 {
+			s, c := mbits.Add32(uint32(x[0]), uint32(x[1]), uint32(x[2]))
+			return []uint64{uint64(s), uint64(c)}
+		})
+	case "Sub32":
+		return constOnly(func(x []uint64) []uint64 {
+			s, c := mbits.Sub32(uint32(x[0]), uint32(x[1]), uint32(x[2]))
+			return []uint64{uint64(s), uint64(c)}
+		})
+	case "Mul32":
+		return constOnly(func(x []uint64) []uint64 {
+			h, l := mbits.Mul32(uint32(x[0]), uint32(x[1]))
+			return []uint64{uint64(h), uint64(l)}
+		})
+	case "Div", "Div64":
+		return func(ex *Exec, a []Value, c *ssa.CallCommon) Value {
+			for _, v := range a {
+				if !v.(IntV).IsConst() {
+					ex.unsupported("%s on a symbolic value", name)
 				}
 			}
-			return ConstInt(64)
+			u := func(i int) uint64 { return new(big.Int).And(a[i].(IntV).Const(), bvMask(64)).Uint64() }
+			if u(2) == 0 {
+				ex.panicEvent("integer divide by zero")
+			}
+			if u(2) <= u(0) {
+				ex.panicEvent("integer overflow")
+			}
+			q, r := mbits.Div64(u(0), u(1), u(2))
+			return TupleV{ConstBig(new(big.Int).SetUint64(q)), ConstBig(new(big.Int).SetUint64(r))}
 		}
 	}
 	return nil
